@@ -14,6 +14,10 @@
  *   force <k> <0|1>     task k completes with force_change = <b>
  *   idbase <n>          input ids passed to llb_buildengine_task_needs_input are n + slot (events print id - n)
  *   rulekey <0|1>       1: lookup_rule fills llb_rule_t.key with a key different from the one looked up (the binding ignores it)
+ *   shape <k> <n>       the value rule k completes with: 0 the 16-byte encoding, 1 EMPTY (length 0), 2 one byte, 3 all NUL (1..20 bytes),
+ *                       4 4096 bytes; validret <k> <0|1>: is_result_valid of rule k answers (stamp still current) && <b>;
+ *   hexvalues 1         print values as hex ("EMPTY" for length 0), `valid` lines carry the value shown to is_result_valid, inputs of any
+ *                       shape are read as (length, hash of bytes).  C++ twin for these lines: capi_twin.cpp (engine_driver has fixed values)
  * Extra output lines: "status <k> <kind>" (update_status callback), "dbsnap <n>" (copy of the database file after build n
  * in <workdir>/snap-<n>.db, dumped by the Python side), and with env CAPI_TRACE=1 "raw ..." lines carrying the exact bytes
  * of every C call / callback argument.  "BAD-..." lines report a broken pass-through that has no C++ counterpart: a callback
@@ -44,12 +48,13 @@ static void def_init(RuleDef* d) { memset(d, 0, sizeof *d); d->obs = 1; d->brslo
 static RuleDef g_pending[MAXK], g_defs[MAXK], g_saved[MAXK], g_default;
 static uint64_t g_env[MAXK];
 static unsigned char* g_name[MAXK]; static size_t g_namelen[MAXK]; static int g_hasname[MAXK];
-static int g_force[MAXK];
+static int g_force[MAXK], g_shape[MAXK], g_validret[MAXK], g_hex = 0;
+#define MAXV 4096
 static uint64_t g_idbase = 0;
 static int g_rulekey = 0;
 static pthread_mutex_t g_out = PTHREAD_MUTEX_INITIALIZER;
 static int g_quiet = 0, g_in_build = 0, g_trace = 0;
-static char g_freshval[MAXK][48]; static int g_hasfresh[MAXK];
+static char g_freshval[MAXK][48]; static int g_hasfresh[MAXK];      /* fresh: 16-byte values only */
 static int g_ctx_magic_a = 0x11, g_ctx_magic_b = 0x22;
 static void* g_cur_ctx = NULL;
 
@@ -78,12 +83,22 @@ static uint64_t mix(uint64_t h, uint64_t x) { h ^= x + 0x9e3779b97f4a7c15ULL + (
 typedef struct { int empty; uint64_t p, s; } Val;
 static void enc(uint64_t p, uint64_t s, uint8_t* r) { for (int i = 0; i < 8; i++) { r[i] = (p >> (8 * i)) & 0xff; r[8 + i] = (s >> (8 * i)) & 0xff; } }
 static Val dec(const uint8_t* v, uint64_t n) {
-  Val r; r.empty = 1; r.p = r.s = 0; if (n != 16) return r; r.empty = 0;
+  Val r; r.empty = 1; r.p = r.s = 0;
+  if (n != 16) {
+    if (g_hex) { r.p = n; for (uint64_t i = 0; i < n; i++) r.s = mix(r.s, v[i]); }     /* any shape: (length, hash of the bytes) */
+    return r;
+  }
+  r.empty = 0;
   for (int i = 0; i < 8; i++) { r.p |= (uint64_t)v[i] << (8 * i); r.s |= (uint64_t)v[8 + i] << (8 * i); }
   return r;
 }
-static void vs(const uint8_t* v, uint64_t n, char* out /* >= 48 */) {
+static void vs(const uint8_t* v, uint64_t n, char* out /* >= 2 * MAXV + 48 */) {
   if (n == 0) { strcpy(out, "EMPTY"); return; }
+  if (g_hex) {
+    static const char* d = "0123456789abcdef"; if (n > MAXV + 16) n = MAXV + 16;
+    for (uint64_t i = 0; i < n; i++) { out[2 * i] = d[v[i] >> 4]; out[2 * i + 1] = d[v[i] & 15]; }
+    out[2 * n] = 0; return;
+  }
   Val x = dec(v, n);
   if (x.empty) { snprintf(out, 48, "BAD%llu", (unsigned long long)n); return; }
   snprintf(out, 48, "%llu.%llu", (unsigned long long)x.p, (unsigned long long)x.s);
@@ -134,20 +149,20 @@ static uint64_t mt_next(void) {
 /* ---- schedules */
 enum Sched { SYNC, DEFER, MIXED, THREADS };
 static enum Sched g_sched = SYNC;
-typedef struct { int k; llb_task_interface_t ti; uint8_t v[16]; IntList disc; int us; } Pending;
+typedef struct { int k; llb_task_interface_t ti; uint8_t v[MAXV]; uint64_t vlen; IntList disc; int us; } Pending;
 static Pending* g_pend = NULL; static size_t g_npend = 0, g_cappend = 0; static pthread_mutex_t g_pm = PTHREAD_MUTEX_INITIALIZER;
 static pthread_t* g_threads = NULL; static size_t g_nthreads = 0, g_capthreads = 0;
 
 static void finish(Pending* p) {
-  char b[32], s[48];
+  char b[32], s[2 * MAXV + 48];
   for (int i = 0; i < p->disc.n; i++) {
     llb_data_t kd = kname(p->disc.v[i], b);
     raw("call-discovered", p->k, &kd, NULL);
     llb_buildengine_task_discovered_dependency(p->ti, &kd);
   }
-  vs(p->v, 16, s);
+  vs(p->v, p->vlen, s);
   ev("complete %d %s", p->k, s);
-  llb_data_t vd; vd.length = 16; vd.data = p->v;
+  llb_data_t vd; vd.length = p->vlen; vd.data = p->v;
   int force = (p->k >= 0 && p->k < MAXK) ? g_force[p->k] : 0;
   raw("call-complete", p->k, &vd, "%d", force);
   llb_buildengine_task_is_complete(p->ti, &vd, force ? true : false);
@@ -204,7 +219,7 @@ static void t_start(void* context, void* engine_context, llb_task_interface_t ti
   }
 }
 static void t_provide(void* context, void* engine_context, llb_task_interface_t ti, uintptr_t input_id, const llb_data_t* value) {
-  TaskCtx* t = context; char s[48];
+  TaskCtx* t = context; char s[2 * MAXV + 48];
   check_ctx(engine_context, "provide_value");
   uint64_t id = (uint64_t)input_id - g_idbase;
   raw("cb-provide_value", t->k, value, "%llu", (unsigned long long)input_id);
@@ -229,8 +244,15 @@ static void t_avail(void* context, void* engine_context, llb_task_interface_t ti
   for (int i = 0; i < t->d.disc.n; i++) h = mix(h, env(t->d.disc.v[i]) + 1);
   h = mix(h, obs);
   if (k % 3 == 0) h = h % 2;
-  Pending p; memset(&p, 0, sizeof p); p.k = k; p.ti = ti; enc(h, obs, p.v); p.disc = t->d.disc;
-  if (g_quiet && k >= 0 && k < MAXK) { vs(p.v, 16, g_freshval[k]); g_hasfresh[k] = 1; }
+  Pending p; memset(&p, 0, sizeof p); p.k = k; p.ti = ti; p.disc = t->d.disc;
+  switch ((k >= 0 && k < MAXK) ? g_shape[k] : 0) {
+  case 1: p.vlen = 0; break;
+  case 2: p.vlen = 1; p.v[0] = (h % 3 == 0) ? 0 : (uint8_t)(h & 0xff); break;
+  case 3: p.vlen = 1 + h % 20; break;                                     /* memset above: all NUL */
+  case 4: p.vlen = 4096; for (int i = 0; i < 256; i++) enc(h, obs, p.v + 16 * i); break;
+  default: p.vlen = 16; enc(h, obs, p.v); break;
+  }
+  if (g_quiet && k >= 0 && k < MAXK) { char fs[2 * MAXV + 48]; vs(p.v, p.vlen, fs); snprintf(g_freshval[k], 48, "%s", fs); g_hasfresh[k] = 1; }
   if (g_sched == SYNC || g_quiet) { finish(&p); return; }
   if (g_sched == THREADS) {
     pthread_mutex_lock(&g_pm); p.us = (int)(mt_next() % 1200); pthread_mutex_unlock(&g_pm);
@@ -264,8 +286,11 @@ static bool r_valid(void* context, void* engine_context, const llb_rule_t* rule,
   check_ctx(engine_context, "is_result_valid");
   if (rule->context != context) ev("BAD-RULE-POINTER %d", k);
   raw("cb-is_result_valid", k, result, NULL);
-  if (def(k)->obs) { Val x = dec(result->data, result->length); r = !x.empty && x.s == env(k); }
-  ev("valid %d %d", k, r ? 1 : 0);
+  int shape = (k >= 0 && k < MAXK) ? g_shape[k] : 0;
+  if (def(k)->obs && shape == 0) { Val x = dec(result->data, result->length); r = !x.empty && x.s == env(k); }
+  if (k >= 0 && k < MAXK && !g_validret[k]) r = 0;
+  if (g_hex) { char s[2 * MAXV + 48]; vs(result->data, result->length, s); ev("valid %d %d %s", k, r ? 1 : 0, s); }
+  else ev("valid %d %d", k, r ? 1 : 0);
   return r ? true : false;
 }
 static void r_status(void* context, void* engine_context, llb_rule_status_kind_t kind) {
@@ -358,7 +383,7 @@ int main(int argc, char** argv) {
   snprintf(g_dbpath, sizeof g_dbpath, "%s/build.db", wd);
   g_trace = getenv("CAPI_TRACE") != NULL;
   int usedb = 0, nbuild = 0, started = 0; uint32_t schema = 1;
-  for (int i = 0; i < MAXK; i++) { def_init(&g_pending[i]); def_init(&g_defs[i]); }
+  for (int i = 0; i < MAXK; i++) { def_init(&g_pending[i]); def_init(&g_defs[i]); g_validret[i] = 1; }
   int have_hook = (&llbuild_verif_engine_hook != NULL);
   if (have_hook) llbuild_verif_engine_hook = hook;
   char* line = NULL; size_t cap = 0; ssize_t len;
@@ -391,6 +416,9 @@ int main(int argc, char** argv) {
     } else if (strcmp(t[0], "set") == 0 && nt >= 3) { int k = atoi(t[1]); if (k >= 0 && k < MAXK) g_env[k] = strtoull(t[2], 0, 10); }
     else if (strcmp(t[0], "force") == 0 && nt >= 3) { int k = atoi(t[1]); if (k >= 0 && k < MAXK) g_force[k] = atoi(t[2]); }
     else if (strcmp(t[0], "idbase") == 0 && nt >= 2) g_idbase = strtoull(t[1], 0, 10);
+    else if (strcmp(t[0], "shape") == 0 && nt >= 3) { int k = atoi(t[1]); if (k >= 0 && k < MAXK) g_shape[k] = atoi(t[2]); }
+    else if (strcmp(t[0], "validret") == 0 && nt >= 3) { int k = atoi(t[1]); if (k >= 0 && k < MAXK) g_validret[k] = atoi(t[2]); }
+    else if (strcmp(t[0], "hexvalues") == 0 && nt >= 2) g_hex = atoi(t[1]);
     else if (strcmp(t[0], "rulekey") == 0 && nt >= 2) g_rulekey = atoi(t[1]);
     else if (strcmp(t[0], "db") == 0 && nt >= 2) { usedb = strcmp(t[1], "0") != 0; if (strcmp(t[1], "1") == 0 && !started) unlink(g_dbpath); }
     else if (strcmp(t[0], "recreate") == 0 && nt >= 2) { if (strcmp(t[1], "1") != 0) printf("UNSUPPORTED recreate 0: llb_buildengine_attach_db always recreates on a version mismatch\n"); }
@@ -402,7 +430,7 @@ int main(int argc, char** argv) {
       void* sctx = g_cur_ctx; g_cur_ctx = &g_ctx_magic_b;
       llb_buildengine_t* e2 = make_engine(g_cur_ctx);
       enum Sched ss = g_sched; g_sched = SYNC; g_in_build = 1;
-      char b[32], s[48]; llb_data_t kd = kname(atoi(t[1]), b), res;
+      char b[32], s[2 * MAXV + 48]; llb_data_t kd = kname(atoi(t[1]), b), res;
       llb_buildengine_build(e2, &kd, &res); vs(res.data, res.length, s);
       g_in_build = 0; g_sched = ss;
       destroy_engine(e2); g_cur_ctx = sctx; g_quiet = 0;
@@ -421,7 +449,7 @@ int main(int argc, char** argv) {
         } else if (strncmp(t[i], "cancel=", 7) == 0) printf("UNSUPPORTED cancel: core.h has no cancellation entry point\n");
       }
       printf("build %d %s\n", ++nbuild, t[1]);
-      char b[32], s[48]; llb_data_t kd = kname(atoi(t[1]), b), res; res.length = 0; res.data = NULL;
+      char b[32], s[2 * MAXV + 48]; llb_data_t kd = kname(atoi(t[1]), b), res; res.length = 0; res.data = NULL;
       g_in_build = 1;
       raw("call-build", atoi(t[1]), &kd, NULL);
       llb_buildengine_build(g_engine, &kd, &res);
